@@ -70,7 +70,7 @@ def gen_tree(rng: Rng) -> dict:
     for d in dirs:
         if chdir_mode and d == "proj":
             continue
-        if rng.chance((0.55 if chdir_mode and d.count("/") == 1 else 0.4) if d != "proj" else 0.5):
+        if rng.chance((0.8 if chdir_mode and d.count("/") == 1 else 0.4) if d != "proj" else 0.5):
             below_dirs = [x[len(d) + 1 :] for x in dirs if x.startswith(d + "/")]
             below_files = [x[len(d) + 1 :] for x in files if x.startswith(d + "/")]
             pats = []
@@ -95,6 +95,8 @@ def gen_tree(rng: Rng) -> dict:
             if not pats:
                 continue
             how = rng.choice([".sqlfluffignore", ".sqlfluffignore", ".sqlfluffignore", ".sqlfluff", "pyproject.toml"])
+            if chdir_mode and d.count("/") == 1 and rng.chance(0.6):
+                how = ".sqlfluffignore"
             if d == "proj" and how == ".sqlfluff":
                 how = ".sqlfluffignore"
             ign[d] = {"how": how, "patterns": pats}
@@ -137,7 +139,9 @@ def gen_queries(rng: Rng, world: dict) -> list[dict]:
         else:
             cwd = rng.choice([d for d in dirs if d.count("/") <= 1 and clean_above(d)] or ["proj"])
         under = [d for d in dirs if d == cwd or d.startswith(cwd + "/")]
-        if rng.chance(0.75) or not files:
+        if world.get("chdir_mode") and rng.chance(0.45):
+            target = cwd
+        elif rng.chance(0.75) or not files:
             target = rng.choice(under)
         else:
             fu = [f for f in files if f.startswith(cwd + "/")]
